@@ -1,1 +1,459 @@
-From TT Require Import Base.Prelude Base.ImscXml Model.ImscTime Model.TimeCode Model.ImscWrite.
+(* C05, attribute round trips: what the reader's value parsers make of what the writer's value printers produce
+   (Model/ImscWrite.v), for all valid values: enumerations (16 properties, decided on the regenerated tables),
+   colours, lengths (Python's "g" formatting: the value is reproduced rounded to six significant digits whenever the
+   writer does not switch to exponent notation), and the length-valued properties built from them. *)
+From TT Require Import Base.Prelude Base.ImscXml Model.ImscTime Model.TimeCode Model.ImscWrite Gen.ImscTables Spec.TtmlTimingSpec.
+From TT Require Import Proofs.C04.TimeSyntax Proofs.C05.Times Proofs.C12.Derived.
+From Coq Require Import QArith Qabs Lqa.
+Local Open Scope Z_scope.
+
+(* ---- enumerations ------------------------------------------------------------------------------------------------- *)
+(* every row of the table of property p is printed as a string that extract maps back to the row's member *)
+Definition enum_row_ok (p : Z) (row : list Z * Z * list Z) : bool :=
+  let '(_, o, v) := row in
+  match extract_style p v with Some (SEnum o') => o' =? o | _ => false end.
+Definition enum_rows_ok (p : Z) : bool :=
+  match enum_table p with Some t => forallb (enum_row_ok p) t | None => true end.
+
+Definition enum_props : list Z :=
+  [P_Direction; P_Display; P_DisplayAlign; P_FontStyle; P_FontWeight; P_MultiRowAlign; P_Overflow; P_RubyAlign;
+   P_RubyPosition; P_ShowBackground; P_TextAlign; P_TextCombine; P_UnicodeBidi; P_Visibility; P_WrapOption; P_WritingMode].
+
+Lemma enum_tables_ok : forallb enum_rows_ok enum_props = true.
+Proof. vm_compute. reflexivity. Qed.
+
+Lemma enum_table_props p t : enum_table p = Some t -> In p enum_props.
+Proof.
+  unfold enum_table, enum_props.
+  repeat match goal with
+         | |- context [if ?b then _ else _] => let E := fresh "E" in destruct b eqn:E; [apply Z.eqb_eq in E; subst p; simpl; tauto|]
+         end.
+  discriminate.
+Qed.
+
+Lemma enum_value_in t : forall o s, enum_value t o = Some s -> exists n, In (n, o, s) t.
+Proof.
+  induction t as [|[[n o'] v] t IH]; intros o s H; [discriminate|]. cbn [enum_value] in H.
+  destruct (o' =? o) eqn:E.
+  - inversion H; subst. apply Z.eqb_eq in E. subst. exists n. left. reflexivity.
+  - destruct (IH _ _ H) as [n' Hin]. exists n'. right. exact Hin.
+Qed.
+
+(* print_style p (SEnum o) = WAttr s  ->  the reader parses s back to member o *)
+Theorem enum_roundtrip p o s :
+  print_style p (SEnum o) = WAttr s -> read_style p s = Some (SEnum o).
+Proof.
+  cbn [print_style]. destruct (enum_table p) as [t|] eqn:Et; [|discriminate].
+  destruct (enum_value t o) as [s'|] eqn:Ev; [|discriminate]. intro H. inversion H; subst s'. clear H.
+  pose proof (enum_table_props p t Et) as Hin.
+  pose proof enum_tables_ok as Hall. rewrite forallb_forall in Hall. specialize (Hall p Hin).
+  unfold enum_rows_ok in Hall. rewrite Et in Hall. rewrite forallb_forall in Hall.
+  destruct (enum_value_in t o s Ev) as [n Hrow]. specialize (Hall _ Hrow). unfold enum_row_ok in Hall.
+  unfold read_style. destruct (extract_style p s) as [v|]; [|discriminate].
+  destruct v; try discriminate. apply Z.eqb_eq in Hall. subst. reflexivity.
+Qed.
+
+(* booleans: itts:fillLineGap *)
+Theorem bool_roundtrip b : exists s, print_style P_FillLineGap (SBool b) = WAttr s /\ read_style P_FillLineGap s = Some (SBool b).
+Proof. destruct b; eexists; split; reflexivity. Qed.
+
+(* ---- colours ------------------------------------------------------------------------------------------------------------ *)
+Lemma hexval_hexd d : 0 <= d < 16 -> hexval (hexd d) = Some d.
+Proof.
+  intro H. unfold hexd, hexval. destruct (d <? 10) eqn:E.
+  - replace ((48 <=? 48 + d) && (48 + d <=? 57)) with true by lia. f_equal. lia.
+  - replace ((48 <=? 87 + d) && (87 + d <=? 57)) with false by lia.
+    replace ((97 <=? 87 + d) && (87 + d <=? 102)) with true by lia. f_equal. lia.
+Qed.
+
+Lemma hexpair_hex2 c : 0 <= c < 256 -> hexpair (hexd (c / 16)) (hexd (c mod 16)) = Some c.
+Proof.
+  intro H. unfold hexpair. rewrite !hexval_hexd by lia. f_equal. lia.
+Qed.
+
+Lemma not_named rest : assoc_color named_colors (35 :: rest) = None.
+Proof. reflexivity. Qed.
+
+Definition byte (c : Z) : Prop := 0 <= c < 256.
+
+Theorem color_roundtrip r g b a : byte r -> byte g -> byte b -> byte a ->
+  parse_color (print_color (r, g, b, a)) = Some (r, g, b, a).
+Proof.
+  intros Hr Hg Hb Ha. unfold print_color, hex2. cbn [app]. unfold parse_color. cbn [List.map].
+  replace (lower 35) with 35 by reflexivity. rewrite not_named.
+  rewrite (hexpair_hex2 r Hr), (hexpair_hex2 g Hg), (hexpair_hex2 b Hb).
+  destruct (a =? 255) eqn:E.
+  - apply Z.eqb_eq in E. subst a. reflexivity.
+  - cbn [app]. rewrite (hexpair_hex2 a Ha). reflexivity.
+Qed.
+
+Theorem color_style_roundtrip r g b a : byte r -> byte g -> byte b -> byte a ->
+  read_style P_Color (print_color (r, g, b, a)) = Some (SColor (r, g, b, a)) /\
+  print_style P_Color (SColor (r, g, b, a)) = WAttr (print_color (r, g, b, a)).
+Proof.
+  intros. split; [|reflexivity]. unfold read_style, extract_style.
+  replace ((P_Color =? P_BackgroundColor) || (P_Color =? P_Color)) with true by reflexivity.
+  rewrite color_roundtrip by assumption. reflexivity.
+Qed.
+
+(* ---- lengths ------------------------------------------------------------------------------------------------------------ *)
+Lemma dchars_chrs l : dchars l = chrs l.
+Proof. reflexivity. Qed.
+
+(* the six units: their text is not a digit, sign or point, is recognised by the unit alternatives, and names the unit *)
+Definition unit_ok (u : Z) : bool :=
+  match unit_text u with
+  | c :: _ =>
+      negb (is_digit c) && negb (c =? 46) && negb (c =? 43) && negb (c =? 45) &&
+      match match_unit length_units (unit_text u) with Some t => text_eqb t (unit_text u) | None => false end &&
+      match enum_by_value enum_LengthUnits (unit_text u) with Some o => o =? u | None => false end &&
+      forallb (fun c => negb (c =? 32) && negb (c =? 44)) (unit_text u)
+  | [] => false
+  end.
+Lemma units_ok : forallb unit_ok [0; 1; 2; 3; 4; 5] = true.
+Proof. vm_compute. reflexivity. Qed.
+Lemma unit_ok_of u : 0 <= u <= 5 -> unit_ok u = true.
+Proof.
+  intro H. pose proof units_ok as A. rewrite forallb_forall in A. apply A.
+  assert (u = 0 \/ u = 1 \/ u = 2 \/ u = 3 \/ u = 4 \/ u = 5) as Hu by lia.
+  simpl. intuition.
+Qed.
+
+(* value of a list of fraction digits *)
+Definition fv (l : list Z) : Q := Qmake (nat_of l) (ten_to (length l)).
+
+Lemma nat_of_cons d l : nat_of (d :: l) = d * Zpos (ten_to (length l)) + nat_of l.
+Proof. unfold nat_of. cbn [fold_left]. rewrite fold_shift. lia. Qed.
+
+Lemma fv_cons d l : (fv (d :: l) == inject_Z d / 10 + fv l / 10)%Q.
+Proof.
+  unfold fv. rewrite nat_of_cons. cbn [length ten_to].
+  unfold Qeq, Qdiv, Qplus, Qmult, Qinv, inject_Z. cbn [Qnum Qden]. lia.
+Qed.
+
+Lemma fv_nil : (fv [] == 0)%Q.
+Proof. reflexivity. Qed.
+
+Lemma rstrip0_fv l : (fv (rstrip0 l) == fv l)%Q.
+Proof.
+  induction l as [|d l IH]; [reflexivity|].
+  cbn [rstrip0]. destruct (rstrip0 l) as [|r rs] eqn:E.
+  - rewrite fv_cons. rewrite <- IH, fv_nil.
+    destruct (d =? 0) eqn:Ed.
+    + apply Z.eqb_eq in Ed. subst d. rewrite fv_nil. reflexivity.
+    + rewrite fv_cons, fv_nil. reflexivity.
+  - rewrite (fv_cons d (r :: rs)), (fv_cons d l), IH. reflexivity.
+Qed.
+
+Lemma rstrip0_dec l : all_dec l = true -> all_dec (rstrip0 l) = true.
+Proof.
+  induction l as [|d l IH]; [reflexivity|]. unfold all_dec in *. cbn [forallb rstrip0]. intro H.
+  apply andb_true_iff in H as [H1 H2]. specialize (IH H2).
+  destruct (rstrip0 l) as [|r rs].
+  - destruct (d =? 0); [reflexivity|]. cbn [forallb]. rewrite H1. reflexivity.
+  - cbn [forallb] in IH |- *. rewrite H1. exact IH.
+Qed.
+
+Lemma pow10z_succ k : pow10z (S k) = 10 * pow10z k.
+Proof. reflexivity. Qed.
+Lemma pow10z_pos k : 0 < pow10z k.
+Proof. unfold pow10z. lia. Qed.
+
+Lemma frac_digits_spec p : forall F, 0 <= F < pow10z p ->
+  nat_of (frac_digits p F) = F /\ length (frac_digits p F) = p /\ all_dec (frac_digits p F) = true.
+Proof.
+  induction p as [|k IH]; intros F H.
+  - cbn in H. assert (F = 0) by (unfold pow10z in H; simpl in H; lia). subst. repeat split; reflexivity.
+  - cbn [frac_digits]. rewrite pow10z_succ in H. pose proof (pow10z_pos k) as Hp.
+    assert (Hm : 0 <= F mod pow10z k < pow10z k) by (apply Z.mod_pos_bound; lia).
+    destruct (IH _ Hm) as [H1 [H2 H3]].
+    assert (Hq : 0 <= F / pow10z k <= 9).
+    { split; [apply Z.div_pos; lia|]. assert (F / pow10z k < 10) by (apply Z.div_lt_upper_bound; lia). lia. }
+    split; [|split].
+    + rewrite nat_of_cons, H1, H2. replace (Zpos (ten_to k)) with (pow10z k) by (unfold pow10z; rewrite pow10_ten_to; reflexivity). pose proof (Z.div_mod F (pow10z k) ltac:(lia)). lia.
+    + cbn [length]. rewrite H2. reflexivity.
+    + unfold all_dec in *. cbn [forallb]. rewrite H3. unfold is_dec. lia.
+Qed.
+
+Lemma round_he_nonneg n d : 0 <= n -> 0 < d -> 0 <= round_he n d.
+Proof.
+  intros Hn Hd. destruct (round_he_cases n d Hd) as [[H|H] _]; rewrite H.
+  - apply Z.div_pos; lia.
+  - assert (0 <= n / d) by (apply Z.div_pos; lia). lia.
+Qed.
+
+Lemma round6_parts_sig x : let '(_, sig, _) := round6_parts x in 0 <= sig.
+Proof.
+  unfold round6_parts. destruct (Qnum x =? 0); [lia|].
+  set (E := dec_exponent (Z.abs (Qnum x)) (Zpos (Qden x))).
+  pose proof (pow10z_pos (Z.to_nat (5 - E))) as P1. pose proof (pow10z_pos (Z.to_nat (- (5 - E)))) as P2.
+  destruct (0 <=? 5 - E).
+  - set (sg := round_he _ _). assert (0 <= sg) by (apply round_he_nonneg; nia). destruct (sg =? 1000000); lia.
+  - set (sg := round_he _ _). assert (0 <= sg) by (apply round_he_nonneg; nia). destruct (sg =? 1000000); lia.
+Qed.
+
+(* what the reader makes of a number written in fixed notation followed by a unit *)
+Lemma parse_fixed (neg : bool) I fr u :
+  0 <= I -> all_dec fr = true -> 0 <= u <= 5 ->
+  parse_len ((if neg then [45] else []) ++ print_nat I ++ (match fr with [] => [] | _ :: _ => 46 :: dchars fr end) ++ unit_text u)
+  = Some (mkLen (if neg then (- dec_value (print_nat I) (dchars fr))%Q else dec_value (print_nat I) (dchars fr)) u).
+Proof.
+  intros HI Hfr Hu.
+  pose proof (unit_ok_of u Hu) as Huo. unfold unit_ok in Huo.
+  destruct (unit_text u) as [|uc ur] eqn:Eu; [discriminate|].
+  repeat (apply andb_true_iff in Huo as [Huo ?]).
+  apply negb_true_iff in Huo. apply negb_true_iff in H4, H3, H2.
+  destruct (nat_digits_ok I HI) as [_ [Hdec Hne]].
+  rewrite print_nat_chrs. destruct (nat_digits I) as [|d ds] eqn:Ed; [discriminate|].
+  assert (Hd : is_dec d = true). { unfold all_dec in Hdec. cbn [forallb] in Hdec. apply andb_true_iff in Hdec as [A _]. exact A. }
+  unfold parse_len.
+  set (tail := (match fr with [] => [] | _ :: _ => 46 :: dchars fr end) ++ uc :: ur).
+  assert (Hsign : split_sign ((if neg then [45] else []) ++ chrs (d :: ds) ++ tail) = (neg, chrs (d :: ds) ++ tail)).
+  { destruct neg; [reflexivity|]. cbn [app chrs List.map split_sign].
+    unfold is_dec in Hd. replace (chr d =? 43) with false by (unfold chr; lia). replace (chr d =? 45) with false by (unfold chr; lia). reflexivity. }
+  rewrite Hsign.
+  assert (Htail : not_digit_head tail).
+  { unfold tail. destruct fr; cbn [app not_digit_head]; [exact Huo|reflexivity]. }
+  rewrite (span_digits_chrs (d :: ds) tail Hdec Htail).
+  assert (Hfrac : split_frac tail = (dchars fr, uc :: ur)).
+  { unfold tail. destruct fr as [|f fr'].
+    - cbn [app split_frac]. rewrite H4. reflexivity.
+    - cbn [app split_frac]. replace (46 =? 46) with true by reflexivity.
+      rewrite dchars_chrs. rewrite (span_digits_chrs (f :: fr') (uc :: ur) Hfr Huo). reflexivity. }
+  rewrite Hfrac.
+  destruct (match_unit length_units (uc :: ur)) as [t|]; [|discriminate].
+  apply text_eqb_eq in H1. subst t.
+  destruct (enum_by_value enum_LengthUnits (uc :: ur)) as [o|]; [|discriminate].
+  apply Z.eqb_eq in H0. subst o.
+  cbn [chrs List.map]. reflexivity.
+Qed.
+
+(* to_ttml_length then parse_length: the value rounded to six significant digits, the same unit -- whenever format(x,"g")
+   stays in fixed notation *)
+Theorem len_roundtrip x u : 0 <= u <= 5 -> uses_exponent x = false ->
+  exists v, parse_len (print_len (mkLen x u)) = Some (mkLen v u) /\ (v == round6 x)%Q.
+Proof.
+  intros Hu Hex. unfold print_len, format_g, uses_exponent, round6 in *. cbn [l_val l_unit].
+  pose proof (round6_parts_sig x) as Hs.
+  destruct (round6_parts x) as [[neg sig] ex].
+  unfold format_g_parts. rewrite Hex.
+  apply orb_false_iff in Hex as [Hex1 Hex2].
+  set (p := Z.to_nat (- ex)). set (I := sig / pow10z p). set (F := sig mod pow10z p).
+  pose proof (pow10z_pos p) as Hp.
+  assert (HF : 0 <= F < pow10z p) by (apply Z.mod_pos_bound; lia).
+  assert (HI : 0 <= I) by (apply Z.div_pos; lia).
+  destruct (frac_digits_spec p F HF) as [Fn [Fl Fd]].
+  pose proof (rstrip0_dec _ Fd) as Hfr.
+  rewrite <- !app_assoc.
+  rewrite (parse_fixed neg I (rstrip0 (frac_digits p F)) u HI Hfr Hu).
+  eexists. split; [reflexivity|].
+  assert (Hv : (dec_value (print_nat I) (dchars (rstrip0 (frac_digits p F))) == inject_Z I + Qmake F (pow10 p))%Q).
+  { change (print_nat I) with (chrs (nat_digits I)). change (dchars (rstrip0 (frac_digits p F))) with (chrs (rstrip0 (frac_digits p F))).
+    rewrite dec_value_number. unfold number.
+    destruct (nat_digits_ok I HI) as [HnI _]. rewrite HnI.
+    change (Qmake (nat_of (rstrip0 (frac_digits p F))) (ten_to (length (rstrip0 (frac_digits p F))))) with (fv (rstrip0 (frac_digits p F))).
+    rewrite rstrip0_fv. unfold fv. rewrite Fn. rewrite Fl. rewrite <- (pow10_ten_to p). reflexivity. }
+  assert (Hsum : (inject_Z I + Qmake F (pow10 p) == Qmake sig (pow10 p))%Q).
+  { unfold Qeq, Qplus, inject_Z. cbn [Qnum Qden]. rewrite Pos.mul_1_l. fold (pow10z p).
+    pose proof (Z.div_mod sig (pow10z p) ltac:(lia)) as Hdm. fold I F in Hdm.
+    set (P := pow10z p) in *. clearbody P I F. rewrite Hdm. ring. }
+  destruct (0 <=? ex) eqn:E0.
+  - assert (ex = 0) by lia. subst ex.
+    destruct neg; rewrite Hv, Hsum; change (pow10 p) with 1%positive; change (pow10z (Z.to_nat 0)) with 1;
+      unfold Qeq, Qopp, inject_Z; cbn [Qnum Qden]; lia.
+  - destruct neg; rewrite Hv, Hsum; unfold Qeq, Qopp; cbn [Qnum Qden]; lia.
+Qed.
+
+Ltac unfold_props :=
+  unfold P_BackgroundColor, P_Color, P_Direction, P_Disparity, P_Display, P_DisplayAlign, P_Extent, P_FillLineGap, P_FontFamily,
+    P_FontSize, P_FontStyle, P_FontWeight, P_LineHeight, P_LinePadding, P_LuminanceGain, P_MultiRowAlign, P_Opacity, P_Origin,
+    P_Overflow, P_Padding, P_Position, P_RubyAlign, P_RubyPosition, P_RubyReserve, P_Shear, P_ShowBackground, P_TextAlign,
+    P_TextCombine, P_TextDecoration, P_TextEmphasis, P_TextOutline, P_TextShadow, P_UnicodeBidi, P_Visibility, P_WrapOption,
+    P_WritingMode in *; cbn [Z.eqb Pos.eqb orb] in *.
+
+(* ---- length-valued properties ------------------------------------------------------------------------------------------- *)
+Definition valid_len (l : len) : Prop := 0 <= l_unit l <= 5 /\ uses_exponent (l_val l) = false.
+Definition len_equiv (l l' : len) : Prop := l_unit l' = l_unit l /\ (l_val l' == round6 (l_val l))%Q.
+
+Lemma len_rt l : valid_len l -> exists l', parse_len (print_len l) = Some l' /\ len_equiv l l'.
+Proof.
+  intros [Hu Hx]. destruct l as [x u]. cbn [l_val l_unit] in *.
+  destruct (len_roundtrip x u Hu Hx) as [v [H1 H2]]. exists (mkLen v u). split; [exact H1|]. split; [reflexivity|exact H2].
+Qed.
+
+(* characters of a printed length: it starts with '-' or a digit and contains neither a space nor a comma *)
+Definition plain (c : Z) : bool := negb (c =? 32) && negb (c =? 44).
+
+Lemma dchars_plain l : all_dec l = true -> forallb plain (dchars l) = true.
+Proof.
+  unfold dchars. induction l as [|d l IH]; [reflexivity|]. unfold all_dec in *. cbn [forallb List.map]. intro H.
+  apply andb_true_iff in H as [H1 H2]. rewrite (IH H2), andb_true_r. unfold is_dec in H1. unfold plain. lia.
+Qed.
+
+Lemma print_len_shape l : valid_len l ->
+  forallb plain (print_len l) = true /\
+  exists c rest, print_len l = c :: rest /\ ((c =? 45) || is_digit c = true).
+Proof.
+  intros [Hu Hx]. destruct l as [x u]. cbn [l_val l_unit] in *.
+  unfold print_len, format_g, uses_exponent in *. cbn [l_val l_unit].
+  pose proof (round6_parts_sig x) as Hs.
+  destruct (round6_parts x) as [[neg sig] ex]. unfold format_g_parts. rewrite Hx.
+  set (p := Z.to_nat (- ex)). set (I := sig / pow10z p). set (F := sig mod pow10z p).
+  pose proof (pow10z_pos p) as Hp.
+  assert (HF : 0 <= F < pow10z p) by (apply Z.mod_pos_bound; lia).
+  assert (HI : 0 <= I) by (apply Z.div_pos; lia).
+  destruct (frac_digits_spec p F HF) as [_ [_ Fd]]. pose proof (rstrip0_dec _ Fd) as Hfr.
+  destruct (nat_digits_ok I HI) as [_ [Hdec Hne]].
+  pose proof (unit_ok_of u Hu) as Huo. unfold unit_ok in Huo.
+  destruct (unit_text u) as [|uc ur] eqn:Eu; [discriminate|].
+  repeat (apply andb_true_iff in Huo as [Huo ?]).
+  split.
+  - assert (Hup : forallb plain (uc :: ur) = true) by (match goal with A : forallb _ (uc :: ur) = true |- _ => exact A end).
+    pose proof (dchars_plain _ Hfr) as Hfrp.
+    assert (Hfrac : forallb plain (match rstrip0 (frac_digits p F) with [] => [] | _ :: _ => 46 :: dchars (rstrip0 (frac_digits p F)) end) = true).
+    { destruct (rstrip0 (frac_digits p F)) as [|z zl]; [reflexivity|].
+      change (forallb plain (46 :: dchars (z :: zl))) with (plain 46 && forallb plain (dchars (z :: zl))). rewrite Hfrp. reflexivity. }
+    rewrite !forallb_app. rewrite Hup, Hfrac. change (print_nat I) with (dchars (nat_digits I)). rewrite (dchars_plain _ Hdec).
+    destruct neg; reflexivity.
+  - change (print_nat I) with (chrs (nat_digits I)). destruct (nat_digits I) as [|d ds]; [discriminate|].
+    destruct neg; cbn [app chrs List.map].
+    + eexists _, _. split; reflexivity.
+    + eexists _, _. split; [reflexivity|]. unfold all_dec in Hdec. cbn [forallb] in Hdec. apply andb_true_iff in Hdec as [A _].
+      apply orb_true_iff. right. apply is_dec_digit. exact A.
+Qed.
+
+Lemma printed_not_keyword l (k : text) kc kr : valid_len l -> k = kc :: kr -> (kc =? 45) || is_digit kc = false ->
+  text_eqb (print_len l) k = false.
+Proof.
+  intros Hv -> Hk. destruct (print_len_shape l Hv) as [_ [c [rest [E Hc]]]]. rewrite E. cbn [text_eqb].
+  destruct (c =? kc) eqn:Ec; [|reflexivity]. apply Z.eqb_eq in Ec. subst c. rewrite Hk in Hc. discriminate.
+Qed.
+
+(* tts:fontSize, tts:disparity *)
+Theorem length_property_roundtrip p l : p = P_FontSize \/ p = P_Disparity -> valid_len l ->
+  print_style p (SLen l) = WAttr (print_len l) /\
+  exists l', read_style p (print_len l) = Some (SLen l') /\ len_equiv l l'.
+Proof.
+  intros Hp Hv. split; [reflexivity|]. destruct (len_rt l Hv) as [l' [H1 H2]]. exists l'. split; [|exact H2].
+  unfold read_style, extract_style. destruct Hp as [-> | ->]; cbn [Z.eqb orb]; rewrite H1; reflexivity.
+Qed.
+
+(* tts:lineHeight: normal, or a length *)
+Theorem line_height_roundtrip l : valid_len l ->
+  read_style P_LineHeight T_normal = Some SNormal /\ print_style P_LineHeight SNormal = WAttr T_normal /\
+  exists l', read_style P_LineHeight (print_len l) = Some (SLen l') /\ len_equiv l l'.
+Proof.
+  intro Hv. split; [reflexivity|]. split; [reflexivity|].
+  destruct (len_rt l Hv) as [l' [H1 H2]]. exists l'. split; [|exact H2].
+  unfold read_style, extract_style. cbn [Z.eqb orb].
+  rewrite (printed_not_keyword l T_normal 110 [111; 114; 109; 97; 108] Hv) by reflexivity.
+  rewrite H1. reflexivity.
+Qed.
+
+(* ebutts:linePadding in c; the other units the model accepts are the recorded finding linepadding-units *)
+Theorem line_padding_roundtrip_partial l : valid_len l -> l_unit l = U_c ->
+  exists l', read_style P_LinePadding (print_len l) = Some (SLen l') /\ len_equiv l l'.
+Proof.
+  intros Hv Hc. destruct (len_rt l Hv) as [l' [H1 [H2 H3]]]. exists l'. split; [|split; assumption].
+  unfold read_style, extract_style, validate_style.
+  change ((P_LinePadding =? P_BackgroundColor) || (P_LinePadding =? P_Color)) with false.
+  change ((P_LinePadding =? P_FontSize) || (P_LinePadding =? P_Disparity)) with false.
+  change (P_LinePadding =? P_LineHeight) with false. change (P_LinePadding =? P_LinePadding) with true.
+  cbv iota. rewrite H1, H2, Hc. change (U_c =? U_c) with true. cbv iota. rewrite H2, Hc. reflexivity.
+Qed.
+
+(* ---- str.split(" ") on printed lengths --------------------------------------------------------------------------------- *)
+Lemma split_plain a : forallb plain a = true -> forall cur, split_on 32 a cur = [cur ++ a].
+Proof.
+  induction a as [|c a IH]; intros H cur; cbn [split_on].
+  - rewrite app_nil_r. reflexivity.
+  - cbn [forallb] in H. apply andb_true_iff in H as [H1 H2]. unfold plain in H1.
+    replace (c =? 32) with false by lia. rewrite (IH H2). rewrite <- app_assoc. reflexivity.
+Qed.
+
+Lemma split_plain_app a b : forallb plain a = true -> forall cur, split_on 32 (a ++ 32 :: b) cur = (cur ++ a) :: split_on 32 b [].
+Proof.
+  induction a as [|c a IH]; intros H cur; cbn [split_on app].
+  - rewrite app_nil_r. reflexivity.
+  - cbn [forallb] in H. apply andb_true_iff in H as [H1 H2]. unfold plain in H1.
+    replace (c =? 32) with false by lia. rewrite (IH H2). rewrite <- app_assoc. reflexivity.
+Qed.
+
+(* tts:extent and tts:origin: two lengths *)
+Theorem extent_roundtrip w h : valid_len w -> valid_len h -> validate_style P_Extent (SExtent w h) = true ->
+  exists s, print_style P_Extent (SExtent w h) = WAttr s /\
+  exists w' h', read_style P_Extent s = Some (SExtent w' h') /\ len_equiv w w' /\ len_equiv h h'.
+Proof.
+  intros Hw Hh Hval. eexists. split; [reflexivity|].
+  destruct (len_rt w Hw) as [w' [W1 [W2 W3]]]. destruct (len_rt h Hh) as [h' [H1 [H2 H3]]].
+  exists w', h'. split; [|split; split; assumption].
+  unfold read_style, extract_style. unfold_props.
+  destruct (print_len_shape w Hw) as [Pw [c [rest [Ew Hc]]]]. destruct (print_len_shape h Hh) as [Ph _].
+  assert (Hauto : text_eqb (print_len w ++ sp ++ print_len h) T_auto = false).
+  { rewrite Ew. unfold T_auto. cbn [app text_eqb]. destruct (c =? 97) eqn:E; [|reflexivity]. apply Z.eqb_eq in E. subst c. discriminate. }
+  rewrite Hauto. unfold sp. cbn [app].
+  rewrite (split_plain_app _ _ Pw []), (split_plain _ Ph []). cbn [app].
+  rewrite W1, H1. cbn [omap2 validate_style] in *. rewrite W2, H2. rewrite Hval. reflexivity.
+Qed.
+
+Theorem origin_roundtrip x y : valid_len x -> valid_len y -> validate_style P_Origin (SOrigin x y) = true ->
+  exists s, print_style P_Origin (SOrigin x y) = WAttr s /\
+  exists x' y', read_style P_Origin s = Some (SOrigin x' y') /\ len_equiv x x' /\ len_equiv y y'.
+Proof.
+  intros Hw Hh Hval. eexists. split; [reflexivity|].
+  destruct (len_rt x Hw) as [w' [W1 [W2 W3]]]. destruct (len_rt y Hh) as [h' [H1 [H2 H3]]].
+  exists w', h'. split; [|split; split; assumption].
+  unfold read_style, extract_style. unfold_props.
+  destruct (print_len_shape x Hw) as [Pw [c [rest [Ew Hc]]]]. destruct (print_len_shape y Hh) as [Ph _].
+  assert (Hauto : text_eqb (print_len x ++ sp ++ print_len y) T_auto = false).
+  { rewrite Ew. unfold T_auto. cbn [app text_eqb]. destruct (c =? 97) eqn:E; [|reflexivity]. apply Z.eqb_eq in E. subst c. discriminate. }
+  rewrite Hauto. unfold sp. cbn [app].
+  rewrite (split_plain_app _ _ Pw []), (split_plain _ Ph []). cbn [app].
+  rewrite W1, H1. cbn [omap2 validate_style] in *. rewrite W2, H2. rewrite Hval. reflexivity.
+Qed.
+
+(* tts:padding: four lengths *)
+Theorem padding_roundtrip b e a s : valid_len b -> valid_len e -> valid_len a -> valid_len s ->
+  exists t, print_style P_Padding (SPadding b e a s) = WAttr t /\
+  exists b' e' a' s', read_style P_Padding t = Some (SPadding b' e' a' s') /\
+    len_equiv b b' /\ len_equiv e e' /\ len_equiv a a' /\ len_equiv s s'.
+Proof.
+  intros Hb He Ha Hs. eexists. split; [reflexivity|].
+  destruct (len_rt b Hb) as [b' [B1 B2]]. destruct (len_rt e He) as [e' [E1 E2]].
+  destruct (len_rt a Ha) as [a' [A1 A2]]. destruct (len_rt s Hs) as [s' [S1 S2]].
+  exists b', e', a', s'. split; [|repeat split; try apply B2; try apply E2; try apply A2; try apply S2].
+  unfold read_style, extract_style. unfold_props.
+  destruct (print_len_shape b Hb) as [Pb _]. destruct (print_len_shape e He) as [Pe _].
+  destruct (print_len_shape a Ha) as [Pa _]. destruct (print_len_shape s Hs) as [Ps _].
+  unfold sp. cbn [app].
+  rewrite (split_plain_app _ _ Pb []), (split_plain_app _ _ Pe []), (split_plain_app _ _ Pa []), (split_plain _ Ps []). cbn [app].
+  rewrite B1, E1, A1, S1. reflexivity.
+Qed.
+
+(* tts:backgroundColor: written unless transparent (finding transparent-background) *)
+Theorem background_roundtrip_partial r g b a : byte r -> byte g -> byte b -> byte a -> color_eqb (r, g, b, a) transparent = false ->
+  print_style P_BackgroundColor (SColor (r, g, b, a)) = WAttr (print_color (r, g, b, a)) /\
+  read_style P_BackgroundColor (print_color (r, g, b, a)) = Some (SColor (r, g, b, a)).
+Proof.
+  intros Hr Hg Hb Ha Ht. split.
+  - cbn [print_style]. change (P_BackgroundColor =? P_BackgroundColor) with true. cbv iota. rewrite Ht. reflexivity.
+  - unfold read_style, extract_style. change ((P_BackgroundColor =? P_BackgroundColor) || (P_BackgroundColor =? P_Color)) with true.
+    cbv iota. rewrite color_roundtrip by assumption. reflexivity.
+Qed.
+
+(* the writer's value printers raise AttributeError only on tts:textEmphasis none (finding none-special-value) and on the special
+   value normal outside tts:lineHeight (not a valid model value) *)
+Theorem print_attribute_error p v : print_style p v = WErr 3 ->
+  (v = SNone /\ p = P_TextEmphasis) \/ (v = SNormal /\ p <> P_LineHeight).
+Proof.
+  destruct v; cbn [print_style]; try discriminate.
+  - destruct (p =? P_BackgroundColor); [destruct (color_eqb c transparent)|]; discriminate.
+  - destruct (enum_table p); [destruct (enum_value l ord)|]; discriminate.
+  - destruct (p =? P_LineHeight) eqn:E; [discriminate|]. intros _. right. split; [reflexivity|]. intro H. subst p. discriminate.
+  - destruct (p =? P_TextEmphasis) eqn:E; [|discriminate]. intros _. left. apply Z.eqb_eq in E. auto.
+  - destruct (enum_value enum_HEdge he), (enum_value enum_VEdge ve); discriminate.
+  - destruct (p =? P_Shear); discriminate.
+  - destruct (p =? P_Shear); discriminate.
+  - destruct (enum_value enum_TextEmphasisStyle style), (enum_value enum_TextEmphasisPosition pos); discriminate.
+  - destruct (enum_value enum_RubyReservePosition pos); discriminate.
+Qed.
